@@ -25,6 +25,9 @@
  *   G <hexstring>           json_object_get_double(json_object_new_string(...))
  *   F <16 hex digits>       the libc oracle itself: snprintf("%.17g") of the double with these bits
  *                           (validates the hypothesis of C14_ser_locale_indep; the modes DO differ here)
+ *   M <variant> <nthreads> <iters> <pevery> <flags> <jvtext> [<cfg>]   concurrent threads, each under its own
+ *        locale, serialising (and every pevery-th iteration parsing + re-serialising) private trees; see run_threads.
+ *        Observation: M mism=<n> pmism=<n> perr=<n> lbad=<n> L<n> ser=<n> par=<n> first=<kind><role>:<hex got>/<hex want>|-
  * Observation, per mode:  <mode> <data…> H<0/1> D<0/1> F<0/1> L<n> sep=<hex>
  *   P data: <err,err,…> <parse_end of the last call> <tree dumps joined by ';' |-> <ncalls>
  *   S data: <hex of the text>        G data: d<bits>:<errno>       F data: <hex of the text>
@@ -338,6 +341,209 @@ static void cfg_doubles(struct json_object *o, char what, const char *fmt)
 	}
 }
 
+/* serializer configuration items applied in order to all the trees; returns 1 on a bad item */
+static int apply_cfg(struct json_object **trees, int ntrees, char *cfg)
+{
+	char *save3 = NULL, *it;
+	int bad = 0, i;
+	if (!cfg || strcmp(cfg, "-") == 0) return 0;
+	for (it = strtok_r(cfg, ",", &save3); it; it = strtok_r(NULL, ",", &save3)) {
+		size_t fn = 0; unsigned char *fb = NULL; char *fmt = NULL;
+		if (it[0] == 'G' || it[0] == 'T' || it[0] == 'O') {
+			if (strcmp(it + 1, "0") != 0) {       /* "0" = NULL format (back to the default) */
+				fb = unhex(it + 1, &fn);
+				fmt = (char *)malloc(fn + 1); memcpy(fmt, fb, fn); fmt[fn] = 0; free(fb);
+			}
+		}
+		switch (it[0]) {
+		case 'G': if (json_c_set_serialization_double_format(fmt, JSON_C_OPTION_GLOBAL) != 0) bad = 1; break;
+		case 'T': if (json_c_set_serialization_double_format(fmt, JSON_C_OPTION_THREAD) != 0) bad = 1; break;
+		case 'O': for (i = 0; i < ntrees; i++) cfg_doubles(trees[i], 'O', fmt); break;
+		case 'D': for (i = 0; i < ntrees; i++) cfg_doubles(trees[i], 'D', NULL); break;
+		default: bad = 1;
+		}
+		free(fmt);
+	}
+	return bad;
+}
+
+/* ------------------------------------------------------------------ M: concurrent threads
+ * Every thread owns a private tree (built by the main thread) and serialises it `iters` times under ITS
+ * locale; every `pevery`-th iteration it also parses the reference text with its own tokener and
+ * serialises the parsed tree.  Every text produced is compared byte for byte with the text computed
+ * before the threads started (main thread, C locale).
+ * The accounting allocator (xalloc.c) is single-threaded: the repeated serialisation of a warmed-up
+ * tree does not allocate (checked before the threads start; the print buffer is pre-grown), and the
+ * allocating segment (parse, first serialisation of the parsed tree, its release) runs under one
+ * driver mutex.  So serialisations run concurrently with each other and with one parse at a time. */
+#include <pthread.h>
+#define MT_MAX 8
+#define MT_KEEP 240
+struct mt_thr {
+	int id, role;                     /* role: 0 uselocale(comma)  1 stay on the global locale  2 uselocale(C object) */
+	struct json_object *tree;
+	struct json_tokener *tok;
+	const char *ref; size_t reflen;   /* expected text of the own tree */
+	const char *ref2; size_t ref2len; /* expected text of parse(ref): the retained source texts are echoed */
+	const char *ref3; size_t ref3len; /* expected text of parse(ref) after json_object_set_double on every double: formatted again */
+	long iters, pevery; int flags;
+	long nser, npar, mism, pmism, perr; int lbad;
+	int have_first; char first_kind; size_t got_len, want_len;
+	unsigned char got[MT_KEEP], want[MT_KEEP];
+};
+static pthread_barrier_t mt_bar;
+static pthread_mutex_t mt_alloc = PTHREAD_MUTEX_INITIALIZER;
+static locale_t c_loc;
+
+static void mt_note(struct mt_thr *t, char kind, const char *got, size_t gl, const char *want, size_t wl)
+{
+	if (t->have_first) return;
+	t->have_first = 1; t->first_kind = kind;
+	t->got_len = gl < MT_KEEP ? gl : MT_KEEP; t->want_len = wl < MT_KEEP ? wl : MT_KEEP;
+	memcpy(t->got, got, t->got_len); memcpy(t->want, want, t->want_len);
+}
+
+static void *mt_worker(void *arg)
+{
+	struct mt_thr *t = (struct mt_thr *)arg;
+	locale_t mine;
+	long i;
+	if (t->role == 0) uselocale(comma_loc);
+	else if (t->role == 2) uselocale(c_loc);
+	mine = uselocale((locale_t)0);
+	pthread_barrier_wait(&mt_bar);
+	for (i = 0; i < t->iters; i++) {
+		size_t len = 0;
+		const char *s = json_object_to_json_string_length(t->tree, t->flags, &len);
+		t->nser++;
+		if (!s || len != t->reflen || memcmp(s, t->ref, len) != 0) {
+			t->mism++;
+			mt_note(t, 'S', s ? s : "", s ? len : 0, t->ref, t->reflen);
+		}
+		if (t->pevery > 0 && i % t->pevery == 0) {
+			struct json_object *o;
+			pthread_mutex_lock(&mt_alloc);
+			json_tokener_reset(t->tok);
+			o = json_tokener_parse_ex(t->tok, t->ref, -1);
+			t->npar++;
+			if (!o) {
+				t->perr++;
+				mt_note(t, 'E', err_name(json_tokener_get_error(t->tok)), strlen(err_name(json_tokener_get_error(t->tok))), t->ref, t->reflen);
+			} else {
+				size_t l2 = 0;
+				const char *s2 = json_object_to_json_string_length(o, t->flags, &l2);
+				if (!s2 || l2 != t->ref2len || memcmp(s2, t->ref2, l2) != 0) {
+					t->pmism++;
+					mt_note(t, 'P', s2 ? s2 : "", s2 ? l2 : 0, t->ref2, t->ref2len);
+				}
+				cfg_doubles(o, 'D', NULL);
+				s2 = json_object_to_json_string_length(o, t->flags, &l2);
+				if (!s2 || l2 != t->ref3len || memcmp(s2, t->ref3, l2) != 0) {
+					t->pmism++;
+					mt_note(t, 'Q', s2 ? s2 : "", s2 ? l2 : 0, t->ref3, t->ref3len);
+				}
+				json_object_put(o);
+			}
+			pthread_mutex_unlock(&mt_alloc);
+		}
+		if (uselocale((locale_t)0) != mine) { t->lbad = 1; uselocale(mine); }
+	}
+	uselocale(LC_GLOBAL_LOCALE);
+	return NULL;
+}
+
+/* M <variant> <nthreads> <iters> <pevery> <flags> <jvtext> [<cfg>]
+ *   variant t: global locale C;     even threads uselocale(comma), odd threads stay on the global C locale
+ *           g: global locale comma (setlocale); even threads stay on it, odd threads uselocale(C object)
+ *           x: global locale C;     thread i: i%3==0 uselocale(comma), 1 global C, 2 uselocale(C object) */
+static void run_threads(char *save)
+{
+	char *var = strtok_r(NULL, " ", &save), *nt = strtok_r(NULL, " ", &save), *its = strtok_r(NULL, " ", &save),
+	     *pe = strtok_r(NULL, " ", &save), *fl = strtok_r(NULL, " ", &save), *jt = strtok_r(NULL, " ", &save),
+	     *cfg = strtok_r(NULL, " ", &save);
+	struct mt_thr T[MT_MAX];
+	struct json_object *trees[MT_MAX];
+	pthread_t th[MT_MAX];
+	char *ref = NULL, *ref2 = NULL, *ref3 = NULL;
+	size_t reflen = 0, ref2len = 0, ref3len = 0;
+	int n, i, flags, bad = 0;
+	long mism = 0, pmism = 0, perr = 0, nser = 0, npar = 0, lbad = 0, leak;
+	struct mt_thr *first = NULL;
+	if (!var || !nt || !its || !pe || !fl || !jt) { printf("BADLINE"); return; }
+	n = atoi(nt); flags = atoi(fl);
+	if (n < 1 || n > MT_MAX) { printf("BADLINE"); return; }
+	if (!c_loc) c_loc = newlocale(LC_ALL_MASK, "C", (locale_t)0);
+	memset(T, 0, sizeof T);
+	for (i = 0; i < n; i++) {
+		const char *p = jt; int err = 0;
+		trees[i] = jv_parse(&p, &err);
+		if (err || *p || !trees[i]) bad = 1;
+	}
+	if (!bad) bad = apply_cfg(trees, n, cfg);
+	if (!bad) {
+		/* reference texts: main thread, C locale, before any thread exists */
+		size_t len = 0;
+		const char *s = json_object_to_json_string_length(trees[0], flags, &len);
+		struct json_tokener *tk = json_tokener_new();
+		struct json_object *o2;
+		ref = (char *)malloc(len + 1); memcpy(ref, s, len); ref[len] = 0; reflen = len;
+		o2 = json_tokener_parse_ex(tk, ref, -1);
+		if (o2) {
+			s = json_object_to_json_string_length(o2, flags, &len);
+			ref2 = (char *)malloc(len + 1); memcpy(ref2, s, len); ref2[len] = 0; ref2len = len;
+			cfg_doubles(o2, 'D', NULL);
+			s = json_object_to_json_string_length(o2, flags, &len);
+			ref3 = (char *)malloc(len + 1); memcpy(ref3, s, len); ref3[len] = 0; ref3len = len;
+			json_object_put(o2);
+		}
+		json_tokener_free(tk);
+	}
+	for (i = 0; i < n && !bad; i++) {
+		size_t len = 0; long c0;
+		/* warm up: the print buffer exists and has room for a (wrongly) longer text; a further
+		 * serialisation must not allocate */
+		json_object_to_json_string_length(trees[i], flags, &len);
+		printbuf_memset(trees[i]->_pb, (int)(len * 3 + 256), 0, 1);
+		c0 = xa_count;
+		json_object_to_json_string_length(trees[i], flags, &len);
+		if (xa_count != c0) bad = 2;
+		T[i].id = i; T[i].tree = trees[i];
+		T[i].role = var[0] == 't' ? (i % 2 == 0 ? 0 : 1) : var[0] == 'g' ? (i % 2 == 0 ? 1 : 2) : (i % 3);
+		T[i].ref = ref; T[i].reflen = reflen; T[i].ref2 = ref2; T[i].ref2len = ref2len; T[i].ref3 = ref3; T[i].ref3len = ref3len;
+		T[i].iters = atol(its); T[i].pevery = ref2 ? atol(pe) : 0; T[i].flags = flags;
+		T[i].tok = json_tokener_new();
+	}
+	if (bad) {
+		printf(bad == 2 ? "NOTALLOCFREE" : "BADTREE");
+	} else {
+		lc_created = lc_freed = lc_free_null = 0;
+		if (var[0] == 'g') setlocale(LC_ALL, LOCNAME);
+		pthread_barrier_init(&mt_bar, NULL, (unsigned)n);
+		for (i = 0; i < n; i++) pthread_create(&th[i], NULL, mt_worker, &T[i]);
+		for (i = 0; i < n; i++) pthread_join(th[i], NULL);
+		pthread_barrier_destroy(&mt_bar);
+		setlocale(LC_ALL, "C");
+		uselocale(LC_GLOBAL_LOCALE);
+		leak = lc_created - lc_freed + 1000 * lc_free_null;
+		for (i = 0; i < n; i++) {
+			mism += T[i].mism; pmism += T[i].pmism; perr += T[i].perr; nser += T[i].nser; npar += T[i].npar; lbad += T[i].lbad;
+			if (T[i].have_first && !first) first = &T[i];
+		}
+		printf("M mism=%ld pmism=%ld perr=%ld lbad=%ld L%ld ser=%ld par=%ld first=", mism, pmism, perr, lbad, leak, nser, npar);
+		if (first) {
+			printf("%c%d:", first->first_kind, first->role);
+			puthex(first->got, first->got_len); putchar('/'); puthex(first->want, first->want_len);
+		} else printf("-");
+	}
+	for (i = 0; i < n; i++) {
+		if (T[i].tok) json_tokener_free(T[i].tok);
+		if (trees[i]) json_object_put(trees[i]);
+	}
+	free(ref); free(ref2); free(ref3);
+	json_c_set_serialization_double_format(NULL, JSON_C_OPTION_THREAD);
+	json_c_set_serialization_double_format(NULL, JSON_C_OPTION_GLOBAL);
+}
+
 void run_case(char *rest)
 {
 	char *save = NULL, *op = strtok_r(rest, " ", &save);
@@ -351,6 +557,11 @@ void run_case(char *rest)
 	if (!op) { printf("BADLINE"); return; }
 	xa_reset();
 	live0 = xa_live;
+	if (op[0] == 'M') {
+		run_threads(save);
+		if (xa_live != live0) printf(" | LEAK %ld", xa_live - live0);
+		return;
+	}
 	if (op[0] == 'P') {
 		char *hx = strtok_r(NULL, " ", &save), *fl = strtok_r(NULL, " ", &save), *dp = strtok_r(NULL, " ", &save),
 		     *ch = strtok_r(NULL, " ", &save), *ft = strtok_r(NULL, " ", &save);
@@ -369,26 +580,7 @@ void run_case(char *rest)
 		o = jv_parse(&p, &err);
 		if (err || *p) { printf("BADTREE"); if (o) json_object_put(o); return; }
 		/* serializer configuration, applied in order (in the C locale, before the three modes) */
-		if (cfg && strcmp(cfg, "-") != 0) {
-			char *save3 = NULL, *it;
-			for (it = strtok_r(cfg, ",", &save3); it; it = strtok_r(NULL, ",", &save3)) {
-				size_t fn = 0; unsigned char *fb = NULL; char *fmt = NULL;
-				if (it[0] == 'G' || it[0] == 'T' || it[0] == 'O') {
-					if (strcmp(it + 1, "0") != 0) {       /* "0" = NULL format (back to the default) */
-						fb = unhex(it + 1, &fn);
-						fmt = (char *)malloc(fn + 1); memcpy(fmt, fb, fn); fmt[fn] = 0; free(fb);
-					}
-				}
-				switch (it[0]) {
-				case 'G': if (json_c_set_serialization_double_format(fmt, JSON_C_OPTION_GLOBAL) != 0) cfg_bad = 1; break;
-				case 'T': if (json_c_set_serialization_double_format(fmt, JSON_C_OPTION_THREAD) != 0) cfg_bad = 1; break;
-				case 'O': cfg_doubles(o, 'O', fmt); break;
-				case 'D': cfg_doubles(o, 'D', NULL); break;
-				default: cfg_bad = 1;
-				}
-				free(fmt);
-			}
-		}
+		cfg_bad = apply_cfg(&o, 1, cfg);
 		for (k = 0; k < 3 && !cfg_bad; k++) {
 			struct snap a;
 			const char *s;
